@@ -31,7 +31,7 @@ func c14Requests() []c14Req {
 	sink.Cfg.Validators["Big.E"] = []string{dsl.TFX + ".V(900)"}
 	sink.Cfg.Validators["Root.Items.E"] = []string{dsl.TFX + ".V(901)"}
 	sink.Cfg.PlanModifiers["Leaf.I"] = []string{dsl.TFX + ".PM(900)"}
-	sink.Cfg.Injected = map[string][]dsl.Injected{"Root.Direct": {{Name: "direct_id", Type: "github.com/hashicorp/terraform-plugin-framework/types.StringType", Computed: true}}, "Root.Opt": {{Name: "opt_id", Type: "github.com/hashicorp/terraform-plugin-framework/types.StringType", Optional: true}}, "Root": {{Name: "id", Type: "github.com/hashicorp/terraform-plugin-framework/types.StringType", Computed: true}, {Name: "rev", Type: "github.com/hashicorp/terraform-plugin-framework/types.Int64Type", Optional: true}}}
+	sink.Cfg.Injected = map[string][]dsl.Injected{"Root.Direct": {{Name: "direct_id", Type: "github.com/hashicorp/terraform-plugin-framework/types.StringType", Computed: true}}, "Root.Opt": {{Name: "opt_id", Type: "github.com/hashicorp/terraform-plugin-framework/types.StringType", Optional: true}}, "Root": {{Name: "id", Type: "github.com/hashicorp/terraform-plugin-framework/types.StringType", Computed: true}, {Name: "rev", Type: "github.com/hashicorp/terraform-plugin-framework/types.Int64Type", Optional: true}, {Name: "zz_first", Type: "github.com/hashicorp/terraform-plugin-framework/types.StringType", Optional: true}, {Name: "zz_second", Type: "github.com/hashicorp/terraform-plugin-framework/types.StringType", Optional: true}, {Name: "aa_before", Type: "github.com/hashicorp/terraform-plugin-framework/types.BoolType", Optional: true}, {Name: "aa_also", Type: "github.com/hashicorp/terraform-plugin-framework/types.BoolType", Optional: true}}}
 	sink.Cfg.Exclude = []string{"Big.By"}
 	// the default modifier switch together with lists that name the default modifier themselves,
 	// repeat entries, and mix them with others (computed fields: the flags mix marks every path)
